@@ -30,6 +30,31 @@ type c13Args struct {
 	Seed   int64    `json:"seed,omitempty"`
 	Budget int      `json:"budget"`
 	Script []string `json:"script,omitempty"`
+	// Expect: a behaviour the (scripted) runs must show — used by corpus witnesses of Neg/ theorems, so that a witness
+	// that silently stops being reproduced on the real code is a disagreement
+	Expect string `json:"expect,omitempty"`
+}
+
+// c13StartAfterErrorExit: does the trace enter a visitor after a worker whose visitor failed has exited (i.e. after the
+// errgroup has recorded the error and cancelled the context)?
+func c13StartAfterErrorExit(ev []string) bool {
+	failed := map[string]bool{}
+	exited := false
+	for _, e := range ev {
+		f := strings.Split(e, "|")
+		if len(f) < 6 || f[0] != "W" {
+			continue
+		}
+		switch {
+		case f[1] == "visit" && f[5] == "err":
+			failed[f[2]] = true
+		case f[1] == "W.exit" && failed[f[2]]:
+			exited = true
+		case f[1] == "W.begin" && f[3] == "visit" && exited:
+			return true
+		}
+	}
+	return false
 }
 
 type c13Out struct {
@@ -371,6 +396,20 @@ func init() {
 				return core.Disagree("malformed replay answer: " + string(drv))
 			}
 			c13LabelAdd(d.Labels)
+			if d.NBad == 0 {
+				var a c13Args
+				json.Unmarshal(args, &a)
+				if a.Expect == "start-after-error-exit" {
+					for _, r := range o.Runs {
+						if !c13StartAfterErrorExit(r.Ev) {
+							return core.Disagree("witness not reproduced: no visitor was entered after a failed worker's exit (Neg/C13.lean error_stops_new_visits_false)")
+						}
+					}
+					if c13Ctx != nil {
+						c13Ctx.Count("witness:start-after-error-exit")
+					}
+				}
+			}
 			if d.NBad > 0 {
 				return core.Disagree(fmt.Sprintf("%d of %d real traces are not traces of Trav.step?: %s", d.NBad, d.Traces, d.Bad[0]))
 			}
